@@ -16,6 +16,49 @@ def parseParams (s : String) : Option (List (String × String)) :=
     | [k, v] => do pure (← hexStr k, ← hexStr v)
     | _ => none
 
+/-- sum of a `--weights` list of simple decimals, as a rational `num / 10^scale` (exact for what the generator writes) -/
+def weightsSumZero (ws : Bytes) : Bool :=
+  let parts := (splitOn 44 ws).filter (fun w => !w.isEmpty)
+  if parts.isEmpty then false else
+  let dec (w : Bytes) : Option (Int × Nat) :=
+    let (neg, w) := match w with | 45 :: r => (true, r) | 43 :: r => (false, r) | _ => (false, w)
+    let ip := w.takeWhile isDigit
+    let rest := w.drop ip.length
+    let fr := match rest with | 46 :: f => f | _ => []
+    match digitsVal (ip ++ fr) with
+    | some n => some ((if neg then -(n : Int) else (n : Int)), fr.length)
+    | none => none
+  match parts.mapM dec with
+  | none => false
+  | some l =>
+    let sc := l.foldl (fun m p => max m p.2) 0
+    (l.foldl (fun acc p => acc + p.1 * (10 ^ (sc - p.2) : Int)) (0 : Int)) == 0
+
+/-- can `NewCalculator` derive a rate? `some b` when it is clear, `none` in the narrow band where binary64 `erfc`
+decides (then the implementation's answer is taken). `0.5·erfc(−z)` is 0 below z ≈ −26.6 and 1 above z ≈ 5.9. -/
+def gaussDerivable (rep freq peak sd : Int) (ws : Bytes) : Option Bool :=
+  if sd ≤ 0 then some true else       -- refused earlier, for another reason
+  if weightsSumZero ws then some false else
+  let z (x : Int) : Float := (Float.ofInt x - Float.ofInt peak) / (Float.ofInt sd * Float.sqrt 2.0)
+  let zHi := z (rep - freq); let zLo := z 0
+  if zHi < -27.5 ∨ zLo > 6.2 then some false
+  else if zHi < -25.5 ∨ zLo > 5.6 then none
+  else some true
+
+/-- set the oracle input of a gaussian stage (fields resolved against the default section like every other field) -/
+def withDerivable (dflt : StageCfg) (implAccepts : Bool) (st : StageCfg) : StageCfg :=
+  if (inh st.mode dflt.mode) = some b_gaussian then
+    let rep := inh st.repeat_ dflt.repeat_
+    let fr := inh st.iterationFrequency dflt.iterationFrequency
+    let pk := inh st.peak dflt.peak
+    let sd := inh st.stddev dflt.stddev
+    let ws := inh st.weights dflt.weights
+    match rep, fr, pk, sd, ws with
+    | some rep, some fr, some pk, some sd, some ws =>
+      { st with gaussDerivable := (gaussDerivable rep fr pk sd ws).getD implAccepts }
+    | _, _, _, _, _ => st
+  else st
+
 def parseStageCfg (s : String) : Option StageCfg := do
   let m := kvs s
   let hb (k : String) : Option (Option Bytes) := match getK m k with | none => some none | some v => (hexBytes v).map some
@@ -61,6 +104,10 @@ def plan (args impl : List String) : Option (String × String) := do
                   ignoreDropped := (getK t "igndrop").map (· = "1") },
       stageStart := ← it "start",
       stages := ← stages.mapM parseStageCfg }
+    -- oracle input of the gaussian stages (resolved against the default section like every other field)
+    let implAccepts := impl.head? = some "ok"
+    let dflt0 := cfg.default_
+    let cfg := { cfg with stages := cfg.stages.map (withDerivable dflt0 implAccepts) }
     let r := parsePlan cfg now
     let model := match r with | .ok p => planTok p ++ " probe=ok same=" ++ sameTok p | .err => "err" | .crash => "crash"
     -- the harness's `same=` observations (one per kept stage), split off before the positional match
@@ -113,7 +160,11 @@ def calcOp (mode : String) (args impl : List String) : Option (String × String)
     | "constant", [r, d] => do pure (calcConstant (← hexBytes r) (← hexBytes d))
     | "ramp", [s, e, d, dur] => do pure (calcRamp (← hexBytes s) (← hexBytes e) (← hexBytes d) (← dur.toInt?))
     | "staged", [f, st, d] => do pure (calcStaged (← f.toInt?) (← hexBytes st) (← hexBytes d))
-    | "gaussian", [f, sd, w, d] => do pure (calcGaussian (← f.toInt?) (← sd.toInt?) (← hexBytes w) (← hexBytes d))
+    | "gaussian", [f, sd, w, d] => do
+      -- the harness calls CalculateGaussianRate with repeat 1 h and peak 30 min
+      let fI ← f.toInt?; let sdI ← sd.toInt?; let wB ← hexBytes w
+      let g := (gaussDerivable 3600000000000 fI 1800000000000 sdI wB).getD (impl.head? = some "ok")
+      pure (calcGaussian fI sdI wB (← hexBytes d) g)
     | _, _ => none
   let model := match r with | .ok v => s!"ok {v} probe=ok" | .err => "err" | .crash => "crash"
   let spec := match impl with
